@@ -112,8 +112,10 @@ CLAIMS["C04"] = proof(
     "once initialised); the slot holds a value iff Initialized; the state word is always one of the three states. C04_value_visible — every value any operation returns (wait, get_or_init, get_or_try_init, Ok of set, get, take) is the value "
     "stored by the one successful initialiser, and the cell is (for take: was) Initialized. C04_no_error — no debug_assert / unreachable branch, no spinning. Schedule half: C04_excl_sched — for every interleaving of the atomic sites on the state word by any number of threads exactly one initialiser while Initializing, "
     "none otherwise, the slot written only by it, initialised at most once. Happens-before half: C04_hb_view — in the release/acquire view semantics every reference handed out by a load that reads Initialized is to a value whose complete write is in the "
-    "receiving thread's view; its only premises about the code are the Orderings read from the source (loads Acquire, store of Initialized Release: once_ord_premises; coq/Sched/OnceSched.v). Not proved (monitored on the implementation + correspondence): payload drop count "
-    "('dropped exactly once'), set's Err(value) hand-back as a theorem; blocking forms and thread interleavings (pinned by Tie_OnceCell, no-failing-input-found). " + CORR, NOTE)
+    "receiving thread's view; its only premises about the code are the Orderings read from the source (loads Acquire, store of Initialized Release: once_ord_premises; coq/Sched/OnceSched.v). C04_payload_accounting / C04_all_dropped_once (coq/Proofs/OnceDrops.v): for every history, payloads dropped so far + payloads "
+    "owned now (the cell's value, closure results in flight, set arguments held by futures) = payloads made so far, hence every stored value and every "
+    "set argument is dropped exactly once when everything is gone; the drop counter of the model is compared with the implementation's by the correspondence. "
+    "Blocking forms: harness op initb and loom scenario once_blocking_race; set's Err(value) hand-back is compared by the correspondence, not a theorem. " + CORR, NOTE)
 CLAIMS["C08"] = proof(
     "History half proved for every history (alphabet as C04): C08_waiters_finish — Initialized and every woken task re-polled => no wait / get_or_init / get_or_try_init / set is pending (both events were notified with notify_additional(MAX), "
     "each waiter woken through its latest waker completes at its next poll). C08_hand_over — the cell is Initializing only while some future is running its closure (after Err, panic or cancellation it is Uninitialized again, never stuck); "
